@@ -371,6 +371,77 @@ void largeCase(Ctx &c, size_t n) {
   c.nontrivial(h.h);
 }
 
+// A long-lived support is compared again and again with supports on grids
+// that come and go: first a separate-but-equal instance (deep comparison,
+// true), which is destroyed, then a logically different grid of the same size
+// allocated right afterwards (very likely at the address just released).
+// Equality must follow the points, not the history; union and intersection
+// across the different grid must be refused.
+template <typename T>
+void longLivedSupportCase(Ctx &c, size_t n, const Win &A) {
+  using bspline::exceptions::ErrorCode;
+  static std::optional<Support<T>> keep;
+  static std::vector<R> keepPts;
+  static Win keepWin;
+  Rng g = c.rng(77);
+  if (!keep || keepPts.size() != n || c.caseId % 8 == 3) {
+    keepPts.clear();
+    R x = R((int64_t)g.range(-40, 40)) / 8;
+    for (size_t i = 0; i < n; i++) {
+      keepPts.push_back(x);
+      x += R((int64_t)g.range(1, 16)) / 8;
+    }
+    keepWin = A;
+    keep.reset();
+    keep.emplace(mkGrid<T>(keepPts), A.start, A.end);
+  }
+  const Win w = keepWin;
+  const void *released = nullptr;
+  {
+    const Grid<T> twin = mkGrid<T>(keepPts);
+    const Support<T> tw(twin, w.start, w.end);
+    released = twin.getData().get();
+    bool ok = (*keep == tw) && (tw == *keep) && !(*keep != tw) && keep->hasSameGrid(tw) &&
+              tw.hasSameGrid(*keep);
+    try {
+      ok = ok && keep->calcUnion(tw) == *keep && tw.calcIntersection(*keep) == tw;
+    } catch (const std::exception &) {
+      ok = false;
+    }
+    if (!ok)
+      c.violation("C13", "equal-twin-not-equal/long-lived-support",
+                  "grid " + gridStr(keepPts) + " window " + winStr(w));
+  }  // the twin is gone
+  std::vector<R> other = keepPts;
+  const size_t k = (size_t)g.below(n);
+  other[k] += (k + 1 < n ? (other[k + 1] - other[k]) : R(1)) / 2;
+  const Grid<T> different = mkGrid<T>(other);
+  const Support<T> df(different, w.start, w.end);
+  if (different.getData().get() == released) c.count("long-lived-support:address-reused");
+  const std::string ctx = "long-lived support on " + gridStr(keepPts) + " window " + winStr(w) +
+                          " against the same window of " + gridStr(other);
+  if (*keep == df || df == *keep || !(*keep != df) || keep->hasSameGrid(df) ||
+      df.hasSameGrid(*keep) || keep->getGrid() == different || different == keep->getGrid())
+    c.violation("C13", "equality-across-grids/long-lived-support", ctx);
+  int refused = 0;
+  auto must = [&](auto &&f) {
+    try {
+      f();
+    } catch (const BSplineException &e) {
+      if (e.getErrorCode() == ErrorCode::DIFFERING_GRIDS) refused++;
+    } catch (const std::exception &) {
+    }
+  };
+  must([&] { auto r = keep->calcUnion(df); (void)r; });
+  must([&] { auto r = df.calcUnion(*keep); (void)r; });
+  must([&] { auto r = keep->calcIntersection(df); (void)r; });
+  must([&] { auto r = df.calcIntersection(*keep); (void)r; });
+  if (refused != 4)
+    c.violation("C13", "union-across-grids/long-lived-support",
+                ctx + ": " + std::to_string(4 - refused) + " of 4 calls were not refused");
+  c.count("long-lived-support:checked");
+}
+
 template <typename T>
 void runCase(Ctx &c) {
   const size_t N = (size_t)c.param("maxn", 7);
@@ -395,6 +466,7 @@ void runCase(Ctx &c) {
   a.algebra(A);
   a.indices(A);
   a.referenceStability(A);
+  longLivedSupportCase<T>(c, n, A);
   c.count("windows");
   c.count("gridsize:" + std::to_string(n));
   Hasher h;
